@@ -110,6 +110,7 @@ class Repo:
         self.aliases_expanded = inline.expand_module_aliases(self)
         self.attr_aliases = inline.expand_attr_aliases(self)
         self.inlined = inline.apply(self)
+        self.local_aliases = inline.expand_local_object_aliases(self)
 
     def module(self, rel):
         if rel not in self.modules:
